@@ -74,6 +74,7 @@ type Op struct {
 	Amt   *Amt   `json:"amt,omitempty"`
 	Gas   uint64 `json:"gas,omitempty"` // abort fault: finite gas meter for this tx
 	Dup   int    `json:"dup,omitempty"` // deliver the same message n more times
+	Self  bool   `json:"self,omitempty"` // native ops: the delegator is the operator of Val (its self-delegation)
 
 	// governance
 	Authority string            `json:"authority,omitempty"` // gov | user | module | garbage
